@@ -259,7 +259,8 @@ def perturbed(cfg: Config) -> Config:
     if not isinstance(cfg.decay, str):
         d['decay'] = 0.5 if cfg.decay != 0.5 else 0.75
     if cfg.kl_clip is not None and not isinstance(cfg.kl_clip, str):
-        d['kl_clip'] = cfg.kl_clip * 7.0
+        # constructed WITHOUT clipping: the checkpoint restores the number
+        d['kl_clip'] = None
     if not isinstance(cfg.lr, str):
         d['lr'] = cfg.lr * 0.5 + 0.01
     if not isinstance(cfg.F, str):
